@@ -162,6 +162,21 @@ func (holder AnnotationHolder) FindFirstByValue(value string) *Attribute {
 	return nil
 }
 
+// FindFirstParamAnnotationByValue returns the first parameter-binding annotation
+// (@Path, @Query, @Header, @FormField or @Body) whose value matches the given one
+func (holder AnnotationHolder) FindFirstParamAnnotationByValue(value string) *Attribute {
+	for _, attrib := range holder.attributes {
+		if attrib.Value != value {
+			continue
+		}
+		switch attrib.Name {
+		case GleeceAnnotationPath, GleeceAnnotationQuery, GleeceAnnotationHeader, GleeceAnnotationFormField, GleeceAnnotationBody:
+			return &attrib
+		}
+	}
+	return nil
+}
+
 func (holder AnnotationHolder) FindFirstByProperty(key string, value string) *Attribute {
 	for _, attrib := range holder.attributes {
 		if attrib.Properties[key] == value {
